@@ -127,6 +127,32 @@ func c12CheckPublic(g *gen.G, a c12Algo, sk crypto.PrivateKey, x *big.Int, origi
 	if again := pk.Encode(); !bytes.Equal(again, enc) {
 		g.Fatalf("%s %s key %x: Encode() of the same public key gives %x then %x", a.name, origin, scalarBytes(x), enc, again)
 	}
+	{
+		// the caller owns what Encode() returns: wiping it must not change the key object (no cached slice handed out)
+		w1, w2 := pk.Encode(), sk.Encode()
+		for i := range w1 {
+			w1[i] = 0x5A
+		}
+		for i := range w2 {
+			w2[i] = 0x5A
+		}
+		if got := sk.PublicKey().Encode(); !bytes.Equal(got, enc) {
+			g.Fatalf("%s %s key %x: after the caller overwrote the slice returned by PublicKey().Encode(), Encode() returns %x instead of %x", a.name, origin, scalarBytes(x), got, enc)
+		}
+		if got := sk.Encode(); !bytes.Equal(got, scalarBytes(x)) {
+			g.Fatalf("%s %s key %x: after the caller overwrote the slice returned by the private key's Encode(), Encode() returns %x", a.name, origin, scalarBytes(x), got)
+		}
+		if a.cv != nil {
+			c1 := pk.EncodeCompressed()
+			keepC := append([]byte{}, c1...)
+			for i := range c1 {
+				c1[i] = 0x5A
+			}
+			if got := pk.EncodeCompressed(); !bytes.Equal(got, keepC) {
+				g.Fatalf("%s %s key %x: EncodeCompressed() changed after the caller overwrote an earlier result", a.name, origin, scalarBytes(x))
+			}
+		}
+	}
 	dec, err := crypto.DecodePublicKey(a.algo, enc)
 	if err != nil || dec == nil {
 		g.Fatalf("%s %s key %x: DecodePublicKey of its own public key encoding %x failed: %v", a.name, origin, scalarBytes(x), enc, err)
